@@ -1126,7 +1126,7 @@ def const_stage(ctx):
 
 
 def run(ctx):
-    ctx.lean_stage()
+    ctx.lean_stage(extra_props=("Compose",))   # + the cross-model theorems of Props/Compose.lean in namespace ComposeProps.C09
     const_stage(ctx)
     ctx.cov["rule"] = ("a case is one gradient history x configuration x implementation; an evaluation is one FD step of one sketch "
                        "(oracle after every step); a sketch trace is non-trivial when at least one of its steps removes mass "
